@@ -338,6 +338,25 @@ def byte_at_a_time_cases():
         yield {"cmds": cmds, "sched": [0] + [1] * total + [0] + [1] * total + [0] + [1] * total}
 
 
+def near_max_line_cases():
+    """Replies with a line just below LineOnlyReceiver's limit as txtorcon configures it (MAX_LENGTH = 2**20, the
+    largest line control.c itself accepts), as a data line, a mid line and a final line, in one chunk and in 64 KiB /
+    odd-sized chunks; a second command follows so that a derailed state machine shows."""
+    for n in (2 ** 20 - 1, 2 ** 20 - 7, 2 ** 20 - 600, 2 ** 19 + 3):
+        big = "k=" + "z" * (n - 2)
+        shapes = [
+            {"code": 250, "parts": [["data", "ns/all=", ["r a", big[:n - 8], "."]]], "final": "OK"},
+            {"code": 250, "parts": [["mid", big[:n - 4]]], "final": "OK"},
+            {"code": 552, "parts": [], "final": big[:n - 4]},
+        ]
+        for rep in shapes:
+            cmds = [{"kind": "plain", "text": "GETINFO ns/all", "reply": rep, "then": 0},
+                    {"kind": "lines", "text": "GETINFO version", "reply": wire.getinfo_reply([("version", "0.4.8")]),
+                     "then": 0}]
+            for sched in ([0, 0, 10 ** 9], [0, 65536] + [0] + [65536] * 20, [0, 0, 100003, 999, 1, 10 ** 9]):
+                yield {"cmds": cmds, "sched": sched}
+
+
 DRIVERS = {"session": drive_session}
 
 MANIFEST = {
@@ -359,6 +378,7 @@ def run(ctx):
     ctx.enumerate("session", byte_at_a_time_cases(), name="byte-at-a-time", exhaustive=False)
     if not ctx.quick():
         ctx.enumerate("session", two_cut_cases(), name="two-cut-segmentations")
+        ctx.enumerate("session", near_max_line_cases(), name="lines-near-the-1MiB-limit", exhaustive=False)
 
 
 MUTANTS = [
